@@ -167,6 +167,28 @@ def run(ctx):
                 events += [dict({"k": 0, "size": 0}, **e) for e in out["events"]]
                 if not good and len(ctx.violations) > 40:
                     break
+        # preemption bound 2: the first thread is stopped early (all of its first steps), a second thread is
+        # stopped somewhere inside its own call, then the first resumes - the window of check-then-act races
+        # at the start of a call (lazily created locks, class-cache get-or-create)
+        if si < (3 if quick else len(scen)):
+            early = range(0, 12 if quick else 30)
+            for first in order:
+                for second in order:
+                    if second == first:
+                        continue
+                    n2 = lens[second]
+                    j2s = sorted({min(n2, x) for x in ((4, 9, 16, 35, 80) if quick else (2, 4, 6, 9, 12, 16, 25, 35, 50, 80, 120, 200, 400))})
+                    for j1 in early:
+                        for j2 in j2s:
+                            av = fresh(basis)
+                            out = sch.run(av, fns_for(av), sched.two_preempt_policy(order, first, j1, second, j2))
+                            nruns += 1
+                            blocked_runs += 1 if out["saw_block"] else 0
+                            ctx.case(("sched2", si, first, j1, second, j2), nontrivial=True)
+                            judge(ctx, {"kind": "schedule2", "basis": basis, "prog": prog, "scenario": si, "first": first, "j": j1,
+                                        "second": second, "j2": j2}, prog, expected[si], out)
+                            events.append({"ev": "Run", "b": bi, "t": 0})
+                            events += [dict({"k": 0, "size": 0}, **e) for e in out["events"]]
         # random schedule words (also for three threads)
         for _ in range(6 if quick else 200):
             word = [rnd.choice(order) for _ in range(rnd.randint(20, 400))]
@@ -225,7 +247,12 @@ def replay(ctx, path):
     av = fresh(basis)
     order = list(range(1, len(prog) + 1))
     fns = {t + 1: (lambda th=th: [real_call(av, c) for c in th]) for t, th in enumerate(prog)}
-    pol = sched.word_policy(case["word"]) if case["kind"] == "word" else sched.preempt_policy(order, case["first"], case["j"])
+    if case["kind"] == "word":
+        pol = sched.word_policy(case["word"])
+    elif case["kind"] == "schedule2":
+        pol = sched.two_preempt_policy(order, case["first"], case["j"], case["second"], case["j2"])
+    else:
+        pol = sched.preempt_policy(order, case["first"], case["j"])
     out = sch.run(av, fns, pol)
     before = len(ctx.violations)
     judge(ctx, case, prog, expected, out)
